@@ -37,7 +37,7 @@ inductive Outcome (α : Type) where
   | ok (a : α)
   | err (e : PErr)
   | panic (site : String)
-  deriving Repr
+  deriving Repr, DecidableEq
 
 namespace Outcome
 def isOk : Outcome α → Bool | .ok _ => true | _ => false
